@@ -107,9 +107,9 @@ func pgDump(v *vmtypes.VmValue, depth int, sb *strings.Builder) {
 
 var pgGasTable map[string]uint64
 
-func pgRunOnce(code []byte, preExec bool, gas uint64) pgObs {
-	store := leveldbstore.NewMemLevelDBStore()
-	defer store.Close()
+// pgRunOnce: fresh overlay, cache and engine per run; the (empty) backing store is never written
+// (only cache -> overlay is committed), so it can be shared by the runs of one item.
+func pgRunOnce(store *leveldbstore.LevelDBStore, code []byte, preExec bool, gas uint64) pgObs {
 	overlay := overlaydb.NewOverlayDB(store)
 	cache := storage.NewCacheDB(overlay)
 	tx := &types.Transaction{}
@@ -186,8 +186,9 @@ func TestVerifPrograms(t *testing.T) {
 		r := pgRes{Id: it.Id, Op: "run", Out: "ok", Runs: reps}
 		idx := map[pgObs]int{}
 		keys := map[string]bool{}
+		store := leveldbstore.NewMemLevelDBStore()
 		for i := 0; i < reps; i++ {
-			o := pgRunOnce(code, it.PreExec, gas)
+			o := pgRunOnce(store, code, it.PreExec, gas)
 			if j, ok := idx[o]; ok {
 				r.Counts[j]++
 			} else {
@@ -197,6 +198,7 @@ func TestVerifPrograms(t *testing.T) {
 			}
 			keys[fmt.Sprintf("%v|%s|%s|%s", o.Ok, o.Result, o.Notify, o.Writes)] = true
 		}
+		store.Close()
 		for k := range keys {
 			r.Keys = append(r.Keys, k)
 		}
